@@ -23,6 +23,12 @@ def filterOf (j : Json) : R (Chunk → List Int → List Int) := do
   | "times" => return timesOuter intOps (← getInts j "vec")
   | s => throw s!"unknown filter {s}"
 
+/-- a step of a process history: `{"write": uri, "data": k}` (content number `k`) or `{"run": uri}` -/
+def stepOf (j : Json) : R (Step Nat) :=
+  match fld j "write" with
+  | .ok u => do return .write (← natOf u) (← getNat j "data")
+  | .error _ => do return .run (← getNat j "run")
+
 def handle : Handler := fun op a =>
   match op with
   | "C11.spans" => some do
@@ -77,6 +83,16 @@ def handle : Handler := fun op a =>
         ("whole", jInts (wholeMarginal intOps n chrom px fs lo hi)),
         ("chunks", jList jInts chunks),
         ("covers", Json.bool (coversOnceB px.length sp lo hi))]
+  | "C11.history" => some do
+      -- which content each run step of a process reads: the one stored at its URI at that moment
+      let steps ← (fld a "steps" >>= listOf stepOf)
+      return Json.mkObj [("reads", jList (jOpt jNat) (observe id steps))]
+  | "C11.chunk" => some do
+      -- what `chunkgetter(clr)(span)` returns: the chromosome id of every bin and the pixel rows of the span
+      let chrom ← getNats a "chrom"
+      let px ← getPixels a "pixels"
+      let c := chunkget chrom px (← (fld a "span" >>= spanOf))
+      return Json.mkObj [("chrom", jNats c.chrom), ("pixels", jPixels c.pixels)]
   | _ => none
 
 end Cooler.Drv.C11
